@@ -388,6 +388,22 @@ Proof.
     + discriminate.
 Qed.
 
+(* the extra-byte loop of read_line (UTF-16LE line feed) *)
+Lemma read_extra_bytes_ok : forall fuel r buf buf' r',
+  reader_ok r -> bytes_ok buf -> read_extra fuel r buf = IoDone (buf', r') ->
+  bytes_ok buf' /\ reader_ok r'.
+Proof.
+  induction fuel as [|f IH]; intros r buf buf' r' Hr Hbuf H; [discriminate|].
+  rewrite read_extra_S in H. destruct (fill_buf r) as [[a| |k] r1] eqn:Hfb.
+  - destruct (fill_buf_ok _ _ _ Hr Hfb) as (Hr1 & Ha).
+    destruct a as [|x t]; inversion H; subst buf' r'; clear H.
+    + split; assumption.
+    + split; [|apply consume_ok; assumption].
+      apply bytes_ok_app. split; [assumption|]. inversion Ha; subst. constructor; [assumption|constructor].
+  - destruct (fill_buf_ok _ _ _ Hr Hfb) as (Hr1 & _). apply IH in H; assumption.
+  - discriminate.
+Qed.
+
 Lemma read_bom_reader_ok : forall fuel r e r',
   reader_ok r -> read_bom fuel r = IoDone (e, r') -> reader_ok r'.
 Proof.
@@ -423,11 +439,10 @@ Proof.
   destruct buf as [|x t].
   - inversion H; subst o d'; clear H. split; [split; [assumption|constructor]|exact I].
   - destruct (enc_is_le (enc d) && ends_with_lf (x :: t)).
-    + destruct (read_exact fuel 1 r []) as [[b r2]|k|w|] eqn:RE; cbn [io_bind] in H;
+    + destruct (read_extra fuel r (x :: t)) as [[b r2]|k|w|] eqn:RE; cbn [io_bind] in H;
         try discriminate.
-      destruct (read_exact_bytes_ok _ _ _ _ _ _ Hr1 bytes_ok_nil RE) as (Hb & Hr2).
-      assert (Hbb : bytes_ok ((x :: t) ++ b)) by (apply bytes_ok_app; split; assumption).
-      destruct (curr_line (mkDecoder r2 ((x :: t) ++ b) (enc d))) as [l|k|w|] eqn:CL;
+      destruct (read_extra_bytes_ok _ _ _ _ _ Hr1 Hbuf RE) as (Hbb & Hr2).
+      destruct (curr_line (mkDecoder r2 b (enc d))) as [l|k|w|] eqn:CL;
         cbn [io_bind] in H; try discriminate.
       inversion H; subst o d'; clear H.
       split; [split; assumption|]. apply curr_line_scalar in CL; [exact CL|exact Hbb].
@@ -484,7 +499,7 @@ Proof.
       split; [constructor; tauto|tauto].
 Qed.
 
-Lemma next_raw_bytes_ok : forall e b l r, bytes_ok b -> next_raw e b = IoDone (Some (l, r)) ->
+Lemma next_raw_bytes_ok : forall e b l r, bytes_ok b -> next_raw e b = Some (l, r) ->
   bytes_ok l /\ bytes_ok r.
 Proof.
   intros e b l r Hb H. unfold next_raw in H.
@@ -492,7 +507,8 @@ Proof.
   destruct (split_line LF b) as [l0 r0]. cbn [fst snd] in *.
   destruct l0 as [|x t]; [discriminate|].
   destruct (enc_is_le e && ends_with_lf (x :: t)).
-  - destruct r0 as [|y r']; [discriminate|]. inversion H; subst l r; clear H.
+  - destruct r0 as [|y r']; [inversion H; subst l r; clear H; split; assumption|].
+    inversion H; subst l r; clear H.
     inversion Hrr as [|y' r'' Hy Hr']; subst.
     split; [|assumption]. apply (proj2 (bytes_ok_app (x :: t) [y])).
     split; [assumption|]. constructor; [assumption|constructor].
@@ -504,7 +520,7 @@ Theorem lines_pure_scalar : forall n e b lines,
 Proof.
   induction n as [|n IH]; intros e b lines Hb H; [discriminate|].
   cbn [lines_pure] in H.
-  destruct (next_raw e b) as [[[l r]|]|k|w|] eqn:NR; cbn [io_bind] in H; try discriminate.
+  destruct (next_raw e b) as [[l r]|] eqn:NR.
   - destruct (next_raw_bytes_ok _ _ _ _ Hb NR) as (Hl & Hr).
     destruct (decode e l) as [s|w|] eqn:D; cbn [io_of_outcome io_bind] in H; try discriminate.
     destruct (lines_pure n e r) as [ls|k|w|] eqn:LP; cbn [io_bind] in H; try discriminate.
